@@ -164,3 +164,39 @@ def try_body_may_raise(func):
                     names.append(src(h.type).split('.')[-1])
         return tuple(dict.fromkeys(names))
     return mr
+
+
+def resolve(func, expr, depth=6):
+    """copy of expr in which every local that func assigns exactly once (plain `name = value`, outside loops, not a
+    parameter) is replaced by its (resolved) value - the expression the code computes, whatever temporaries it names"""
+    import copy
+    from .core import parent
+    params = set(a.arg for a in func.args.args + func.args.kwonlyargs) | set(x.arg for x in (func.args.vararg, func.args.kwarg) if x)
+    stores = {}
+    for n in walk_no_nested(func):
+        if isinstance(n, ast.Name) and isinstance(n.ctx, (ast.Store, ast.Del)):
+            stores.setdefault(n.id, []).append(n)
+    defs = {}
+    for name, ss in stores.items():
+        if len(ss) != 1 or name in params:
+            continue
+        st = parent(ss[0])
+        if not (isinstance(st, ast.Assign) and len(st.targets) == 1 and st.targets[0] is ss[0]):
+            continue
+        p, in_loop = parent(st), False
+        while p is not None and p is not func:
+            if isinstance(p, (ast.For, ast.While, ast.AsyncFor)):
+                in_loop = True
+            p = parent(p)
+        if not in_loop:
+            defs[name] = st.value
+
+    class R(ast.NodeTransformer):
+        def __init__(self, d):
+            self.d = d
+
+        def visit_Name(self, n):
+            if isinstance(n.ctx, ast.Load) and n.id in defs and self.d > 0:
+                return R(self.d - 1).visit(copy.deepcopy(defs[n.id]))
+            return n
+    return R(depth).visit(copy.deepcopy(expr))
